@@ -43,7 +43,7 @@ manifest = {
     "setup_cmd": "./setup.sh",
     "hooks": {
         "guard": "cfg(kani) and cfg(d_engine_verif)",
-        "enable": "cargo kani sets --cfg kani itself (harness modules /verif/kani/*.rs); replay tests are built with RUSTFLAGS='--cfg d_engine_verif' cargo test -p d-engine-core --lib verif_replays (module /verif/replay/core_replays.rs) and -p d-engine-server --lib verif_replays (module /verif/replay/server_replays.rs); all hooks are `#[cfg(..)] #[path = ..] mod ..;` lines, inert in every ordinary build",
+        "enable": "cargo kani sets --cfg kani itself (harness modules /verif/kani/*.rs); replay tests are built with RUSTFLAGS='--cfg d_engine_verif' cargo test -p d-engine-core --lib verif_replays (module /verif/replay/core_replays.rs) and -p d-engine-server --lib verif_replays (module /verif/replay/server_replays.rs); all hooks are `#[cfg(..)] #[path = ..] mod ..;` lines plus one `#[cfg(all(test, d_engine_verif))] pub(crate) use ..;` re-export, inert in every ordinary build",
         "baseline_off_cmd": "cd /repo && cargo nextest run --workspace --no-fail-fast --test-threads 8 --offline || cargo test --workspace --no-fail-fast --offline",
         "source_commits": claims["hook_commits"],
         "add_only": True,
